@@ -694,7 +694,7 @@ namespace avel {
 
     [[nodiscard]]
     AVEL_FINL vec16x32f fdim(vec16x32f x, vec16x32f y) {
-        return avel::max(x - y, vec16x32f{0.0f});
+        return blend(x <= y, vec16x32f{0.0f}, x - y);
     }
 
     [[nodiscard]]
